@@ -103,7 +103,7 @@ func runComp(env *drive.Env) error {
 					inflight[op.Kind] = nil
 				case "Results":
 					out := [][]interface{}{}
-					for _, r := range q.Results() {
+					for _, r := range q.ResultsWithReceipts() {
 						num := int(r.Header.Number.Int64() - int64(origin))
 						txok := types.DeriveSha(r.Transactions) == r.Header.TxHash
 						rcok := types.DeriveSha(r.Receipts) == r.Header.ReceiptHash
